@@ -484,4 +484,291 @@ theorem viewList_mk (T : Tables) (tag : Str) (sc : Bool) (l : List (Str × Optio
         unfold El.className
         rw [hcls, hv]
 
+/-! #### moving one key to the end -/
+
+/-- the list with the entries under key `k` moved to the end -/
+def moveLast {α : Type} (k : Str) (l : AL α) : AL α :=
+  l.filter (fun p => decide (p.1 ≠ k)) ++ l.filter (fun p => decide (p.1 = k))
+
+theorem filter_ne_of_not_mem {α : Type} {k : Str} : ∀ {l : AL α}, k ∉ akeys l → l.filter (fun p => decide (p.1 ≠ k)) = l
+  | [], _ => rfl
+  | (k0, v0) :: r, h => by
+    have h0 : k0 ≠ k := fun e => h (by simp [akeys, e])
+    have hr : k ∉ akeys r := fun m => h (by simp only [akeys, List.map_cons]; exact List.mem_cons_of_mem _ m)
+    rw [List.filter_cons_of_pos (by simpa using h0), filter_ne_of_not_mem hr]
+
+theorem filter_eq_of_not_mem {α : Type} {k : Str} : ∀ {l : AL α}, k ∉ akeys l → l.filter (fun p => decide (p.1 = k)) = []
+  | [], _ => rfl
+  | (k0, v0) :: r, h => by
+    have h0 : k0 ≠ k := fun e => h (by simp [akeys, e])
+    have hr : k ∉ akeys r := fun m => h (by simp only [akeys, List.map_cons]; exact List.mem_cons_of_mem _ m)
+    rw [List.filter_cons_of_neg (by simpa using h0), filter_eq_of_not_mem hr]
+
+theorem filter_key {α : Type} {k : Str} : ∀ {l : AL α}, (akeys l).Nodup →
+    l.filter (fun p => decide (p.1 = k)) = (match aget k l with | some v => [(k, v)] | none => [])
+  | [], _ => rfl
+  | (k0, v0) :: r, hn => by
+    have hn' : k0 ∉ akeys r ∧ (akeys r).Nodup := by simpa [akeys] using hn
+    by_cases h0 : k0 = k
+    · subst h0
+      simp [List.filter_cons, aget, filter_eq_of_not_mem hn'.1]
+    · simp only [List.filter_cons, h0, decide_false, Bool.false_eq_true, if_false, aget]
+      exact filter_key hn'.2
+
+theorem moveLast_eq_self_iff {α : Type} {l : AL α} (hn : (akeys l).Nodup) (k : Str) :
+    moveLast k l = l ↔ (k ∉ akeys l ∨ (akeys l).getLast? = some k) := by
+  constructor
+  · intro h
+    by_cases hk : k ∈ akeys l
+    · right
+      have hv : ∃ v, aget k l = some v := by
+        cases hg : aget k l with
+        | none => exact absurd hk (aget_eq_none_iff.mp hg)
+        | some v => exact ⟨v, rfl⟩
+      obtain ⟨v, hv⟩ := hv
+      have hB : l.filter (fun p => decide (p.1 = k)) = [(k, v)] := by rw [filter_key hn, hv]
+      have : akeys l = akeys (l.filter (fun p => decide (p.1 ≠ k))) ++ [k] := by
+        have := congrArg akeys h.symm
+        unfold moveLast at this
+        rw [akeys_append, hB] at this
+        simpa [akeys] using this
+      rw [this, List.getLast?_append]
+      rfl
+    · exact Or.inl hk
+  · rintro (hk | hk)
+    · unfold moveLast
+      rw [filter_ne_of_not_mem hk, filter_eq_of_not_mem hk, List.append_nil]
+    · unfold akeys at hk
+      rw [List.getLast?_map] at hk
+      cases hl : l.getLast? with
+      | none => rw [hl] at hk; cases hk
+      | some p =>
+        rw [hl] at hk
+        simp only [Option.map_some, Option.some.injEq] at hk
+        obtain ⟨l', rfl⟩ := List.getLast?_eq_some_iff.mp hl
+        have hn2 : k ∉ akeys l' := by
+          rw [akeys_append] at hn
+          intro hm
+          exact (List.nodup_append.mp hn).2.2 k hm k (by simp [akeys, hk]) rfl
+        unfold moveLast
+        rw [List.filter_append, List.filter_append, filter_ne_of_not_mem hn2, filter_eq_of_not_mem hn2]
+        simp [List.filter_cons, hk]
+
+theorem filterMap_drop_key {α : Type} (k : Str) : ∀ (l : AL α),
+    l.filterMap (fun p => if p.1 = k then none else some p) = l.filter (fun p => decide (p.1 ≠ k))
+  | [] => rfl
+  | p :: r => by
+    by_cases h : p.1 = k
+    · simp [List.filterMap_cons, List.filter_cons, h, filterMap_drop_key k r]
+    · simp [List.filterMap_cons, List.filter_cons, h, filterMap_drop_key k r]
+
+/-! #### the list of a copy -/
+
+/-- what the copy's constructor makes of one entry of the original's list: the entry itself, except
+    for `class` (appended after the first synchronisation) -/
+theorem mkView_viewList (T : Tables) {e : El} (h : DictInv e) (hb : BinStrInv T e) (hs : StyRT e.sty)
+    {p : Str × Option Str} (hp : p ∈ viewList e) : mkView T p = if p.1 = classK then none else some p := by
+  have hg : GoodKeys (viewList e) := goodKeys_of_sync h (akeys_attrsList e)
+  have hget : aget p.1 (viewList e) = some p.2 := aget_of_mem_nodup hg.1 hp
+  unfold mkView
+  by_cases hc : p.1 = classK
+  · rw [if_pos hc, if_pos hc]
+  · rw [if_neg hc, if_neg hc]
+    by_cases hst : p.1 = styleK
+    · rw [if_pos hst]
+      rw [hst, viewList_style] at hget
+      split at hget
+      · cases hget
+      · next hne =>
+        have hp2 : p.2 = some (asStr e.sty) := (Option.some.inj hget).symm
+        have hso : styOf p.2 = e.sty := by
+          unfold styOf
+          rw [hp2]
+          simp only [Option.getD_some]
+          rw [styleToDict_asStr hs, styleToDict_asStr hs]
+        rw [hso]
+        have : e.sty.isEmpty = false := by simpa using hne
+        rw [this]
+        simp only [Bool.false_eq_true, if_false]
+        rw [← hp2, ← hst]
+    · rw [if_neg hst]
+      rw [viewList_ordinary h hc hst] at hget
+      unfold rawLookup at hget
+      split at hget
+      · next v hv =>
+        have hv2 : v = p.2 := Option.some.inj hget
+        have hn := hb p.1 v hv
+        rw [hv2] at hn
+        rw [hn]
+      · cases hget
+
+/-- The list of a copy (`cloneNode`, `copy.copy`, `copy.deepcopy`, unpickling, `eval(repr(tag))`), as a
+    LIST: the original's list with the `class` entry moved to the end. Hypotheses: the two invariants
+    of all histories (`DictInv`, `BinStrInv`) and the round-trip conditions of C09 / C10 on the class
+    names and the style map (they make the *values* under `class` and `style` survive). -/
+theorem viewList_clone (T : Tables) {e : El} (h : DictInv e) (hb : BinStrInv T e)
+    (hc : ∀ w ∈ e.cls, CleanName w) (hs : StyRT e.sty) :
+    viewList (clone T e).1 = moveLast classK (viewList e) := by
+  have hg : GoodKeys (viewList e) := goodKeys_of_sync h (akeys_attrsList e)
+  show viewList (mk T e.tag e.sc (viewList e)) = _
+  rw [viewList_mk T e.tag e.sc (viewList e) hg]
+  unfold moveLast
+  congr 1
+  · rw [← filterMap_drop_key]
+    exact filterMap_congr_mem (fun p hp => mkView_viewList T h hb hs hp)
+  · rw [filter_key hg.1, viewList_class]
+    by_cases he : e.cls.isEmpty = true
+    · rw [if_pos he]
+    · rw [if_neg he]
+      simp only [Option.getD_some]
+      have hw : words e.className = e.cls := words_join_clean hc
+      rw [hw, if_neg he]
+      rfl
+
+/-! #### per-key views, once more: the synchronising `get` in general, boolean-string keys, symbolic defaults -/
+
+theorem rawVal_eq_viewList {e : El} (h : DictInv e) {k : Str} (hc : k ≠ classK) (hs : k ≠ styleK) :
+    rawVal k e = (aget k (viewList e)).join := by
+  rw [viewList_ordinary h hc hs]
+  unfold rawVal rawLookup
+  rcases aget k e.dict with _ | s
+  · rfl
+  · cases s <;> rfl
+
+/-- in a normalised store the value listed under a boolean-string key is `convertToBooleanString` of itself -/
+theorem binStr_listed {T : Tables} {e : El} (h : DictInv e) (hb : BinStrInv T e) {k : Str} (hc : k ≠ classK) (hs : k ≠ styleK)
+    (hk : T.binStr.contains k = true) {v : Option Str} (hv : aget k (viewList e) = some v) : v = some (boolString v) := by
+  rw [viewList_ordinary h hc hs] at hv
+  unfold rawLookup at hv
+  split at hv
+  · next w hw =>
+    have hn := hb k w hw
+    have : w = v := Option.some.inj hv
+    subst this
+    unfold normVal at hn
+    rw [hk] at hn
+    exact hn.symm
+  · cases hv
+
+theorem keys_contains (e : El) (k : Str) : (keys e).1.contains k = (aget k (viewList e)).isSome := by
+  rw [keys_fst, ← akeys_viewList]
+  cases hh : (aget k (viewList e)).isSome with
+  | true =>
+    apply List.contains_iff_mem.mpr
+    apply ahas_iff_mem.mp
+    exact hh
+  | false =>
+    cases hcn : (akeys (viewList e)).contains k with
+    | false => rfl
+    | true =>
+      have := ahas_iff_mem.mpr (List.contains_iff_mem.mp hcn)
+      unfold ahas at this
+      rw [hh] at this
+      cases this
+
+/-- `attributes.get(k, d)` for a key other than class / style: `attributes[k]` (read after the
+    synchronisation) when the key is listed, else the default -/
+theorem mapGet_fst (T : Tables) (e : El) {k : Str} (hc : lower k ≠ classK) (hs : lower k ≠ styleK) (d : PyVal) :
+    (mapGet T k d e).1 = if (aget (lower k) (viewList e)).isSome then getitem T (lower k) (handleClassAttr e) else d := by
+  unfold mapGet
+  simp only [hc, hs, if_false]
+  rw [keys_contains]
+  split <;> rfl
+
+theorem mapGetOpt_fst (T : Tables) (e : El) {k : Str} (hc : lower k ≠ classK) (hs : lower k ≠ styleK) :
+    (mapGetOpt T k e).1 = if (aget (lower k) (viewList e)).isSome then some (getitem T (lower k) (handleClassAttr e)) else none := by
+  unfold mapGetOpt
+  simp only [hc, hs, if_false]
+  rw [keys_contains]
+  split <;> rfl
+
+/-- the symbolic-default reader is the modelled reader: `get(k, d)` is `getD d` of it, state included -/
+theorem mapGet_eq_opt (T : Tables) (k : Str) (d : PyVal) (e : El) :
+    mapGet T k d e = (((mapGetOpt T k e).1).getD d, (mapGetOpt T k e).2) := by
+  unfold mapGet mapGetOpt
+  simp only
+  split
+  · rfl
+  · split
+    · rfl
+    · split <;> rfl
+
+theorem getAttribute_eq_opt (T : Tables) (k : Str) (d : PyVal) (e : El) :
+    getAttribute T k d e = (((getAttributeOpt T k e).1).getD d, (getAttributeOpt T k e).2) := by
+  unfold getAttribute getAttributeOpt
+  split
+  · split <;> rfl
+  · exact mapGet_eq_opt T k d e
+
+theorem getAttributeOpt_snd (T : Tables) (k : Str) (e : El) :
+    (getAttributeOpt T k e).2 = e ∨ (getAttributeOpt T k e).2 = handleClassAttr e := by
+  have h := getAttribute_snd T k .none e
+  rw [getAttribute_eq_opt] at h
+  exact h
+
+/-- `attributes[k]` for a boolean-string key: the listed value, `'false'` when the key is not listed -/
+theorem getitem_binStr (T : Tables) {e : El} (h : DictInv e) (hb : BinStrInv T e) {k : Str} (hc : lower k ≠ classK)
+    (hs : lower k ≠ styleK) (hk : T.binStr.contains (lower k) = true) :
+    getitem T k e = match aget (lower k) (viewList e) with
+      | none => .str strFalse
+      | some v => pyOfOpt v := by
+  unfold getitem
+  simp only [hc, hs, hk, if_false, if_true]
+  rw [rawVal_eq_viewList h hc hs]
+  cases hg : aget (lower k) (viewList e) with
+  | none => rfl
+  | some v =>
+    have hv := binStr_listed h hb hc hs hk hg
+    simp only [Option.join_some]
+    conv => rhs; rw [hv]
+    rfl
+
+/-- a key other than class / style, boolean-string or not: what `attributes[k]` answers when the key is listed -/
+theorem getitem_listed (T : Tables) {e : El} (h : DictInv e) (hb : BinStrInv T e) {k : Str} (hc : lower k ≠ classK)
+    (hs : lower k ≠ styleK) {v : Option Str} (hv : aget (lower k) (viewList e) = some v) : getitem T k e = pyOfOpt v := by
+  cases hk : T.binStr.contains (lower k) with
+  | true => rw [getitem_binStr T h hb hc hs hk, hv]
+  | false => rw [getitem_eq_viewList T h hc hs hk, hv]; rfl
+
+/-- `attributes.get(k, d)` for every key other than class / style (boolean-string keys included) -/
+theorem mapGet_listed (T : Tables) {e : El} (h : DictInv e) (hb : BinStrInv T e) {k : Str} (hc : lower k ≠ classK)
+    (hs : lower k ≠ styleK) (d : PyVal) :
+    (mapGet T k d e).1 = match aget (lower k) (viewList e) with
+      | none => d
+      | some v => pyOfOpt v := by
+  rw [mapGet_fst T e hc hs]
+  cases hg : aget (lower k) (viewList e) with
+  | none => rfl
+  | some v =>
+    simp only [Option.isSome_some, if_true]
+    have hg' : aget (lower (lower k)) (viewList (handleClassAttr e)) = some v := by rw [lower_idem, viewList_sync, hg]
+    exact getitem_listed T (dictInv_handleClassAttr h) (binStrInv_handleClassAttr hb) (by rw [lower_idem]; exact hc)
+      (by rw [lower_idem]; exact hs) hg'
+
+theorem mapGetOpt_listed (T : Tables) {e : El} (h : DictInv e) (hb : BinStrInv T e) {k : Str} (hc : lower k ≠ classK)
+    (hs : lower k ≠ styleK) : (mapGetOpt T k e).1 = (aget (lower k) (viewList e)).map pyOfOpt := by
+  rw [mapGetOpt_fst T e hc hs]
+  cases hg : aget (lower k) (viewList e) with
+  | none => rfl
+  | some v =>
+    simp only [Option.isSome_some, if_true, Option.map_some]
+    have hg' : aget (lower (lower k)) (viewList (handleClassAttr e)) = some v := by rw [lower_idem, viewList_sync, hg]
+    rw [getitem_listed T (dictInv_handleClassAttr h) (binStrInv_handleClassAttr hb) (by rw [lower_idem]; exact hc)
+      (by rw [lower_idem]; exact hs) hg']
+
+/-- what `__setitem__` stores, seen through the list: the normalised value under the lower-cased key -/
+theorem mapSet_listed (T : Tables) {e : El} (h : DictInv e) {k : Str} (hv : validName k = true) (hc : lower k ≠ classK)
+    (hs : lower k ≠ styleK) (v : Option Str) :
+    aget (lower k) (viewList (mapSet T k v e).2) = some (normVal T (lower k) v) := by
+  rw [viewList_ordinary (dictInv_mapSet T k v h) hc hs]
+  unfold rawLookup
+  have hv' : validName (lower k) = true := by rw [validName_lower]; exact hv
+  have := mapSet_aget_same T v e hv' (lower_idem k) hc hs
+  have hm : mapSet T (lower k) v e = mapSet T k v e := by unfold mapSet; rw [lower_idem]
+  rw [hm] at this
+  rw [this]
+
+theorem boolOfString_true : boolOfString (.str strTrue) = true := by decide
+theorem boolOfString_false : boolOfString (.str strFalse) = false := by decide
+
 end AHP.Attrs
